@@ -33,6 +33,7 @@ def apply_diff(path):
     rc,out=sh(f"git apply {path}", REPO); return rc==0, out
 def build_all():
     # one build of the harness and the CLI per change; the checks then run without rebuilding
+    sh("python3 tools/gen_wrappers.py", VERIF)
     rc,out=sh("cd harness && cargo build --release --offline 2>&1 | tail -3", VERIF)
     rc2,out2=sh("cargo build --offline --manifest-path /repo/Cargo.toml --bin aisparser --target-dir /verif/target/cli 2>&1 | tail -3", VERIF)
     return ("error" not in out) and ("error" not in out2), out+out2
